@@ -1,17 +1,17 @@
 /-
   C17 — the chunk queue is an exact FIFO byte stream under all operations and
   temp-file write faults.  Property theorems only (helper lemmas, the system
-  invariant `Inv` and the reference semantics `specStep` live in
-  LtVerif/Proofs/Cq.lean).
+  invariants `Inv` / `FInv` / `Acct` and the reference semantics `specStep`
+  live in LtVerif/Proofs/Cq*.lean).
 
   The theorems are about the closed system `Sys` of two chunk queues over one
   `World` (file store, chunk pool, upload dirs and the scripted results of the
   temp-file syscalls).  `step : Sys → Op → Sys × Res` is one operation of
   src/chunk.c, `run` a whole history.  Fault schedules are part of the world
   (`wsched`, `msched`): a theorem about all `s : Sys` is a theorem about all
-  fault schedules.
+  fault schedules.  `s.abs i` are the bytes queue `i` holds.
 -/
-import LtVerif.Proofs.CqRes
+import LtVerif.Proofs.CqSpill
 namespace LtVerif.C17
 open LtVerif LtVerif.Cq
 
@@ -19,10 +19,18 @@ open LtVerif LtVerif.Cq
     and the fault schedules -/
 def init (w : World) (_ : w.nfiles = 0) : Sys := { w := w, q0 := {}, q1 := {} }
 
+/-- The invariant behind everything below is inductive: every operation, under
+    every fault schedule, successful or failed, keeps it (exact counters, chunks
+    inside their files, one owning chunk per temp file spanning the whole file,
+    names and ghost lengths accounted for). -/
+theorem c17_invariant (base : Nat → Int) (s : Sys) (ops : List Op) (h : FInv base s)
+    (hops : ∀ (pre : List Op) (op : Op) (post : List Op), ops = pre ++ op :: post → OpOK (run s pre) op) :
+    FInv base (run s ops) :=
+  run_finv s ops h hops
+
 /-- Exact accounting, for every history and every fault schedule: after any
     sequence of operations (successful or failed) the length each queue reports
-    (bytes_in − bytes_out) is the number of bytes it still holds, every chunk's
-    offset lies inside the chunk and every file chunk lies inside its file. -/
+    (bytes_in − bytes_out) is the number of bytes it still holds. -/
 theorem c17_length_exact (s : Sys) (ops : List Op) (h : Inv s)
     (hops : ∀ (pre : List Op) (op : Op) (post : List Op), ops = pre ++ op :: post → OpOK (run s pre) op)
     (i : Bool) :
@@ -30,25 +38,71 @@ theorem c17_length_exact (s : Sys) (ops : List Op) (h : Inv s)
   have hi := run_inv s ops h hops
   exact ⟨hi, hi.length_abs i⟩
 
-/-- One operation, any fault schedule: the invariant is kept. -/
-theorem c17_step_inv (s : Sys) (op : Op) (h : Inv s) (hop : OpOK s op) : Inv (step s op).1 :=
-  step_inv s op h hop
-
-/-- FIFO refinement: every operation that does not write temp files acts on
-    the queued bytes exactly like the byte-string reference queue `specStep`
-    (append at the tail, consume at the head, transfers move a prefix of the
+/-- FIFO refinement, all operations: unless a spilling operation reports an
+    error (see `c17_fault_safe`), every operation acts on the queued bytes
+    exactly like the byte-string reference queue `specStep` — append at the
+    tail, consume at the head, transfers (with or without spilling to temp
+    files, under short writes, EINTR and ENOSPC fallback) move a prefix of the
     source to the tail of the destination, compaction / squash / removal of
-    empty chunks change nothing), and peek/read hand out the head of the
-    queue unmodified.
-    PARTIAL: the two spilling operations (append_mem_to_tempfile,
-    steal_with_tempfiles) are covered by `c17_length_exact` only; the full
-    statement is the same equation without `hns`. -/
-theorem c17_refines_fifo_partial (s : Sys) (op : Op) (h : Inv s) (hop : OpOK s op)
-    (hns : op.spills = false) :
+    empty chunks change nothing — and peek/read hand out the head of the queue
+    unmodified. -/
+theorem c17_refines_fifo (base : Nat → Int) (s : Sys) (op : Op) (h : FInv base s) (hop : OpOK s op)
+    (hok : op.spills = true → (step s op).2 = .rc true) :
     ((step s op).1.abs op.qi, (step s op).1.abs (!op.qi)) =
         specStep (fun fid => (s.w.files fid).content) (s.abs op.qi) (s.abs (!op.qi)) op (step s op).2 ∧
-      resOK (s.abs op.qi) op (step s op).2 :=
-  step_refines s op h hop hns
+      resOK (s.abs op.qi) op (step s op).2 := by
+  by_cases hns : op.spills = false
+  · exact step_refines s op h.inv hop hns
+  · have hsp : op.spills = true := by cases hb : op.spills <;> simp_all
+    have hres := (step_finv s op h hop).2
+    have hrc := hok hsp
+    cases op with
+    | appendMemToTempfile qi d =>
+      simp only [SpillRes, hrc, AppOrPrefix, if_true] at hres
+      simp only [hrc, specStep, Op.qi, resOK, and_true]
+      exact Prod.ext hres.1 hres.2
+    | stealWithTempfiles qi n =>
+      simp only [SpillRes, hrc, Transfer, if_true] at hres
+      obtain ⟨k, k1, k2, k3, k4, k5⟩ := hres
+      simp only [hrc, specStep, Op.qi, resOK, and_true]
+      refine Prod.ext ?_ ?_
+      · simp only [k5, k4]
+        congr 1
+        rw [List.take_eq_take_iff]; omega
+      · simp only [k3, k4]
+        by_cases hle : n ≤ (s.abs (!qi)).length
+        · rw [Nat.min_eq_left hle]
+        · rw [Nat.min_eq_right (by omega), List.drop_of_length_le (Nat.le_refl _),
+            List.drop_of_length_le (by omega)]
+    | _ => cases hsp
+
+/-- Fault safety: when a spilling operation reports an error, nothing is
+    duplicated or reordered.  append_mem_to_tempfile leaves a prefix of (old
+    bytes ++ offered bytes); steal_with_tempfiles has taken exactly some k ≤ n
+    bytes out of the source and the destination holds a prefix of (old bytes ++
+    those k bytes); the other queue is untouched.  (On success the same facts
+    hold with equality: `ok = true`.)  The invariant survives: the error is
+    surfaced, the queues stay consistent. -/
+theorem c17_fault_safe (base : Nat → Int) (s : Sys) (h : FInv base s) (qi : Bool) :
+    (∀ d ok, (step s (.appendMemToTempfile qi d)).2 = .rc ok →
+      FInv base (step s (.appendMemToTempfile qi d)).1 ∧
+      (if ok then (step s (.appendMemToTempfile qi d)).1.abs qi = s.abs qi ++ d
+        else (step s (.appendMemToTempfile qi d)).1.abs qi <+: s.abs qi ++ d) ∧
+      (step s (.appendMemToTempfile qi d)).1.abs (!qi) = s.abs (!qi)) ∧
+    (∀ n ok, (step s (.stealWithTempfiles qi n)).2 = .rc ok →
+      FInv base (step s (.stealWithTempfiles qi n)).1 ∧
+      ∃ k, k ≤ n ∧ k ≤ (s.abs (!qi)).length ∧
+        (step s (.stealWithTempfiles qi n)).1.abs (!qi) = (s.abs (!qi)).drop k ∧
+        (if ok then k = min n (s.abs (!qi)).length ∧
+            (step s (.stealWithTempfiles qi n)).1.abs qi = s.abs qi ++ (s.abs (!qi)).take k
+          else (step s (.stealWithTempfiles qi n)).1.abs qi <+: s.abs qi ++ (s.abs (!qi)).take k)) := by
+  refine ⟨fun d ok hrc => ?_, fun n ok hrc => ?_⟩
+  · obtain ⟨hf, hres⟩ := step_finv s (.appendMemToTempfile qi d) h trivial
+    simp only [SpillRes, hrc, AppOrPrefix] at hres
+    exact ⟨hf, hres.1, hres.2⟩
+  · obtain ⟨hf, hres⟩ := step_finv s (.stealWithTempfiles qi n) h trivial
+    simp only [SpillRes, hrc, Transfer] at hres
+    exact ⟨hf, hres⟩
 
 /-- chunkqueue_steal(): the first min(n, |src|) bytes of src move to the tail
     of dest, in order and unmodified; nothing else changes. -/
@@ -98,12 +152,12 @@ theorem c17_resources_conserved (base : Nat → Int) (s : Sys) (ops : List Op) (
     descriptor and every temp-file name that is left belongs to the other
     queue. -/
 theorem c17_reset_releases (base : Nat → Int) (s : Sys) (i : Bool) (h : Acct base s) (f : Nat) :
-    ((step s (.reset i)).1.w.files f).nfd = csum false f (s.get (!i)).chunks ∧
-      ((step s (.reset i)).1.w.files f).nlink = base f + csum true f (s.get (!i)).chunks := by
+    ((step s (.reset i)).1.w.files f).nfd = csum .fd f (s.get (!i)).chunks ∧
+      ((step s (.reset i)).1.w.files f).nlink = base f + csum .name f (s.get (!i)).chunks := by
   have h' := h.of_conserve (step_conserve s (.reset i)) f
   cases i
-  · simpa [Sys.chunks, step, reset, Sys.get, Sys.set] using h'
-  · simpa [Sys.chunks, step, reset, Sys.get, Sys.set] using h'
+  · have := h'; simp only [Sys.chunks, step, reset, Sys.get, Sys.set] at this; simp at this; exact ⟨this.1, this.2.1⟩
+  · have := h'; simp only [Sys.chunks, step, reset, Sys.get, Sys.set] at this; simp at this; exact ⟨this.1, this.2.1⟩
 
 /-- After both queues are reset nothing the queues created is left: no open
     descriptor, no temp file (the names that remain are the `base` ones). -/
@@ -120,18 +174,30 @@ theorem c17_reset_releases_all (base : Nat → Int) (s : Sys) (ops : List Op) (h
       | cons x xs ih => intro b t; exact ih b _
     rw [hrun]; exact this _
   rw [hc] at h'
-  simpa using h'
+  simp at h'
+  exact ⟨h'.1, h'.2.1⟩
 
 /-! ### non-vacuity -/
 
-/-- the invariant holds initially, whatever the configuration and schedules -/
-example (w : World) (h : w.nfiles = 0) (hfiles : ∀ fid, (w.files fid).content = []) : Inv (init w h) :=
-  ⟨fun fid _ => by simp [sz, hfiles, init], ⟨ValidAll.nil _, rfl⟩, ⟨ValidAll.nil _, rfl⟩⟩
+/-- a concrete configuration: 1 KiB chunks, two upload dirs, and a write
+    schedule with a short write followed by ENOSPC -/
+def demoWorld : World := { cs := 1024, defTempSize := 4096, ndirs := 2, wsched := [.short 2, .enospc] }
+
+/-- the invariants hold initially -/
+example : Inv (init demoWorld rfl) :=
+  ⟨fun fid _ => rfl, ⟨ValidAll.nil _, rfl⟩, ⟨ValidAll.nil _, rfl⟩⟩
+
+example : FInv (fun _ => 0) (init demoWorld rfl) :=
+  ⟨⟨fun fid _ => rfl, ⟨ValidAll.nil _, rfl⟩, ⟨ValidAll.nil _, rfl⟩⟩,
+   ⟨fun fid _ => rfl,
+    ⟨fun f => by simp [init, demoWorld], fun f _ => by simp [init, demoWorld],
+     fun f hf => by simp [init, demoWorld] at hf⟩,
+    ValidAll.nil _, fun f => ⟨rfl, rfl⟩⟩⟩
+
+example : Acct (fun _ => 0) (init demoWorld rfl) := fun _ => ⟨rfl, rfl, rfl⟩
 
 /-- a concrete history: append, spill to a temp file under a short write
     followed by ENOSPC with a second upload dir, steal, read -/
-def demoWorld : World := { cs := 1024, defTempSize := 4096, ndirs := 2, wsched := [.short 2, .enospc] }
-
 def demoOps : List Op :=
   [.appendMem false [1, 2, 3, 4, 5], .stealWithTempfiles true 4, .steal false 1, .readData true 2]
 
@@ -139,13 +205,19 @@ example : (run (init demoWorld rfl) demoOps).abs true = [4] := by decide
 example : (run (init demoWorld rfl) demoOps).abs false = [5, 1] := by decide
 example : ((run (init demoWorld rfl) demoOps).get true).length = 1 := by decide
 example : OpOK (init demoWorld rfl) (.appendMem false [1, 2, 3]) := trivial
-/-- the initial system is well-accounted (no names, no descriptors, no chunks) -/
-example : Acct (fun _ => 0) (init demoWorld rfl) := fun _ => ⟨rfl, rfl⟩
 /-- the demo history really creates temp files (two of them, the second after
     ENOSPC; the first one is unlinked again once its last byte is consumed) -/
 example : ((run (init demoWorld rfl) demoOps).w.files 0).nlink = 0 ∧
     ((run (init demoWorld rfl) demoOps).w.files 1).nlink = 1 ∧ (run (init demoWorld rfl) demoOps).w.nfiles = 2 := by
   decide
-example : (Op.steal true 4).spills = false := rfl
+/-- a spill that fails: every upload dir is full (ENOSPC twice with two dirs):
+    the error is reported and the three bytes that made it stay a prefix -/
+def failWorld : World := { cs := 1024, ndirs := 2, wsched := [.short 3, .enospc, .enospc] }
+example : (step (step (init failWorld rfl) (.appendMem false [1, 2, 3, 4, 5])).1 (.stealWithTempfiles true 5)).2 =
+    .rc false := by decide
+example : (step (step (init failWorld rfl) (.appendMem false [1, 2, 3, 4, 5])).1
+    (.stealWithTempfiles true 5)).1.abs true = [1, 2, 3] := by decide
+example : (step (step (init failWorld rfl) (.appendMem false [1, 2, 3, 4, 5])).1
+    (.stealWithTempfiles true 5)).1.abs false = [4, 5] := by decide
 
 end LtVerif.C17
